@@ -375,3 +375,27 @@ Definition optimizer_step_exit (calc_aborted : bool) (rmin : nat) (allow_nan : b
 Definition evaluator_step_exit (calc_aborted : bool) (missing : list bool) : Z :=
   if calc_aborted || existsb (fun b => b) missing
   then exit_code_of "TOO_FEW_REALIZATIONS"%string else exit_code_of "EVALUATION_STEP_FINISHED"%string.
+
+(* ------------------------------------------------------------------------------------------------ *)
+(* Specification vocabulary of Props/C01.v and Props/C03.v (not used by the executable model above). *)
+
+(* element-wise == of rational vectors; results that agree up to == *)
+Definition veq (a b : list Q) : Prop := Forall2 Qeq a b.
+Definition fres_eq (a b : fres) : Prop :=
+  match a, b with
+  | FOk x, FOk y => x == y
+  | FAbort, FAbort | FDivZero, FDivZero | FNoEst, FNoEst => True
+  | _, _ => False
+  end.
+Definition gres_eq (a b : gres) : Prop :=
+  match a, b with
+  | GMean g, GMean h => veq g h
+  | GSd v c, GSd v' c' => v == v' /\ veq c c'
+  | GAbort, GAbort | GDivZero, GDivZero => True
+  | _, _ => False
+  end.
+(* function j is mapped to realization filter k by the index map fm (objectives.realization_filters) *)
+Definition mapped_to (fm : option (list Z)) (j k : nat) : Prop :=
+  exists l, fm = Some l /\ nth_error l j = Some (Z.of_nat k).
+(* an evaluator row without NaN *)
+Definition nan_free (oc : list oQ * list oQ) : bool := negb (row_failure (fst oc) (snd oc)).
